@@ -189,6 +189,9 @@ func cmdCheck(args []string) int {
 		lines = append(lines, fmt.Sprintf("VIOLATION property=%s replay=%s no-failing-input-found", *prop, rp))
 	}
 	for _, vc := range vcs {
+		for _, u := range vc.unsup {
+			fmt.Fprintf(os.Stderr, "  outside subset / engine limit in %s: %s\n", vc.name, u)
+		}
 		fnames = append(fnames, vc.name)
 		for n := range vc.usedExt {
 			if x := eng.ext[n]; x != nil {
